@@ -2,6 +2,11 @@
 Secondary tie for C09: the probe-version decision table `_get_neuropixel_version_from_meta`, GENERATED from the current
 text of src/spikeglx.py, equals the model's `Meta.version` on every dictionary whose `imDatPrb_type` is an integer or absent
 (presence of a key = a non-zero flag).
+
+Round h: the decision / index skeleton of `_get_max_int_from_meta`, `_get_sync_trace_indices_from_meta`, `_get_fs_from_meta`,
+`_get_nchannels_from_meta` and the ordered array-building steps of `_conversion_sample2v_from_meta` (generated as an event list)
+equal the model's `maxInt`, `syncRange` / `nSync`, `fsOf`, `nChannels` and `conversion`.  The generated definitions are addressed
+BY PARAMETER NAME (`(md_imSampRate := …)`): the names carry the metadata keys, so a changed key no longer elaborates.
 -/
 import IblVerif.Generated.SrcC09
 import IblVerif.Model.Meta
@@ -53,5 +58,162 @@ theorem stream_type_nidq_eq (d : Dict) (h : d.get? kApLfSy = Option.none) :
   unfold Src.C09.stream_type_nidq Src.C09.stream_type_imec typeOf
   rw [h]
   cases typeThisIs d "nidq".toList <;> simp [tname, Except.map]
+
+/-! ### `_get_max_int_from_meta` -/
+
+/-- Python `p in s` for strings -/
+def hasSub (p : Str) : Str → Bool
+  | [] => p.isEmpty
+  | c :: r => p.isPrefixOf (c :: r) || hasSub p r
+
+/-- the flag `"NP2" in neuropixel_version` of the source -/
+def np2Flag (v : Version) : Int := b2i (hasSub "NP2".toList v.name)
+
+/-- the model's `Version.isNP2` IS the substring test of the source on the version tag -/
+theorem np2_flag_eq (v : Version) : v.isNP2 = hasSub "NP2".toList v.name := by
+  cases v <;> decide
+
+/-- imec stream with a recognised probe: whenever `imMaxInt` is present (and converts to the integer `n`) the source returns
+what the model returns; when it is absent on an NP1-family probe both return the default 512.  (`md["imMaxInt"]` absent on NP2:
+`KeyError` in the source, `.error .key` in the model — errors are outside the integer skeleton.) -/
+theorem max_int_imec_eq (d : Dict) (v : Version) (hT : typeThisIs d "imec".toList = true) (hv : version d = some v) :
+    (∀ x n, d.get? kImMaxInt = some x → pyInt (some x) = .ok n →
+      maxInt d = .ok (Src.C09.max_int_imec (neuropixel_version_has_NP2 := np2Flag v) (md_imMaxInt := n) (md_imMaxInt_or_512 := n))) ∧
+    (d.get? kImMaxInt = Option.none → v.isNP2 = false → ∀ junk,
+      maxInt d = .ok (Src.C09.max_int_imec (neuropixel_version_has_NP2 := np2Flag v) (md_imMaxInt := junk) (md_imMaxInt_or_512 := 512))) := by
+  unfold maxInt Src.C09.max_int_imec np2Flag
+  rw [← np2_flag_eq, if_pos hT]
+  refine ⟨fun x n hx hn => ?_, fun hx hn junk => ?_⟩
+  · cases h2 : v.isNP2 <;> simp [hv, hx, hn, h2, b2i]
+  · simp [hv, hx, hn, b2i, pyInt]
+
+/-- any other stream (nidq): `int(md.get("imMaxInt", 32768))` -/
+theorem max_int_other_eq (d : Dict) (hT : typeThisIs d "imec".toList = false) (n : Int)
+    (hn : pyInt (some ((d.get? kImMaxInt).getD (.int 32768))) = .ok n) :
+    maxInt d = .ok (Src.C09.max_int_other (md_imMaxInt_or_32768 := n)) := by
+  unfold maxInt Src.C09.max_int_other
+  rw [if_neg (by rw [hT]; decide), hn]
+
+example : (maxInt [(kTypeThis, .str "imec".toList), (kPrbType, .int 0)]).toOption = some 512 := by decide +kernel
+example : (maxInt [(kTypeThis, .str "nidq".toList)]).toOption = some 32768 := by decide +kernel
+
+/-! ### `_get_nchannels_from_meta`, `_get_sync_trace_indices_from_meta`, `_get_fs_from_meta` -/
+
+/-- `int(md.get("nSavedChans"))`: the key is `nSavedChans` -/
+theorem nchannels_eq (d : Dict) (nc : Int) (h : nChannels d = .ok nc) :
+    pyInt (d.get? kNSaved) = .ok (Src.C09.nchannels (md_nSavedChans := nc)) := by
+  unfold Src.C09.nchannels
+  exact h
+
+/-- AP / LF stream: the sync traces are `range(ntr - nsync, ntr)` with `ntr = nSavedChans`, `nsync = snsApLfSy[2]` -/
+theorem sync_range_imec_eq (d : Dict) (t : STyp) (ht : typeOf d = .ok (some t)) (hne : t ≠ .nidq) (nc n : Int)
+    (hnc : nChannels d = .ok nc) (hn : intItem (d.get? kApLfSy) 2 = .ok n) :
+    let r := Src.C09.sync_range_imec (nchannels := Src.C09.nchannels (md_nSavedChans := nc)) (md_snsApLfSy_2 := n)
+    syncRange d = .ok (r.1, r.2.1) ∧ nSync d = .ok r.2.2.toNat := by
+  have hs : syncRange d = .ok (nc - n, nc) := by
+    unfold syncRange
+    simp only [ht, hnc]
+    cases t <;> simp_all
+  refine ⟨by simpa [Src.C09.sync_range_imec, Src.C09.nchannels] using hs, ?_⟩
+  unfold nSync
+  rw [hs]
+  simp only [Functor.map, Except.map, rangeLen, Src.C09.sync_range_imec]
+  congr 2
+  omega
+
+/-- nidq stream: `nsync = snsMnMaXaDw[-1]` -/
+theorem sync_range_nidq_eq (d : Dict) (ht : typeOf d = .ok (some .nidq)) (nc n : Int)
+    (hnc : nChannels d = .ok nc) (hn : intItem (d.get? kMnMaXaDw) (-1) = .ok n) :
+    let r := Src.C09.sync_range_nidq (nchannels := Src.C09.nchannels (md_nSavedChans := nc)) (md_snsMnMaXaDw_m1 := n)
+    syncRange d = .ok (r.1, r.2.1) ∧ nSync d = .ok r.2.2.toNat := by
+  have hs : syncRange d = .ok (nc - n, nc) := by
+    unfold syncRange
+    simp only [ht, hnc, hn]
+  refine ⟨by simpa [Src.C09.sync_range_nidq, Src.C09.nchannels] using hs, ?_⟩
+  unfold nSync
+  rw [hs]
+  simp only [Functor.map, Except.map, rangeLen, Src.C09.sync_range_nidq]
+  congr 2
+  omega
+
+/-- the sampling rate is the value under `imSampRate` for an imec stream and under `niSampRate` otherwise (whatever encoding
+`e` of a dictionary value as an integer is used: the source returns the value untouched) -/
+theorem fs_eq (d : Dict) (e : Option Val → Int) :
+    e (fsOf d) = if typeThisIs d "imec".toList then Src.C09.fs_imec (md_imSampRate := e (d.get? kImSampRate))
+                 else Src.C09.fs_other (md_niSampRate := e (d.get? kNiSampRate)) := by
+  unfold fsOf Src.C09.fs_imec Src.C09.fs_other
+  cases typeThisIs d "imec".toList <;> simp
+
+/-! ### `_conversion_sample2v_from_meta` -/
+
+theorem conv_nchn_eq (nc : Int) (sr : Int × Int) :
+    Src.C09.conv_nchn (nchannels := nc) (len_sync_indices := rangeLen sr) = nc - rangeLen sr := by
+  unfold Src.C09.conv_nchn
+  rfl
+
+/-- the ordered array-building steps of the model's `conversion` -/
+def convSteps (hasImro hasMN np2 : Bool) (nsyI nc : Int) (nsl : Nat) : List (String × List Int) :=
+  if hasImro then
+    ("sync_ones", [nsyI]) ::
+      (if np2 then [("np2", [nc - nsl, nc - nsl])] else [("take", [nc - nsl]), ("np1", [-1, -2])])
+  else if hasMN then [("nidq", [0, 1, 2, 3])] else []
+
+/-- the steps of the source, generated from its text, are the steps of the model — in the same order, with the same counts:
+sync block of `snsApLfSy[-1]` ones; `n_chn = nchannels − len(sync indices)`; NP2: `n_chn` equal entries for both streams;
+NP1: the IMRO matches cut to `[:n_chn]`, field −1 → "lf", field −2 → "ap"; nidq: blocks sized by entries 0, 1, 2, 3; and NO
+other array step (no slice assignment afterwards). -/
+theorem conv_steps_eq (hasImro hasMN np2 : Bool) (nsyI nc : Int) (nsl : Nat) :
+    Src.C09.conv_steps (meta_data_has_imroTbl := b2i hasImro) (meta_data_has_niMNGain := b2i hasMN) (version_has_NP2 := b2i np2)
+      (snsApLfSy_m1 := nsyI) (nchannels := nc) (len_sync_indices := nsl) = convSteps hasImro hasMN np2 nsyI nc nsl := by
+  unfold Src.C09.conv_steps convSteps
+  cases hasImro <;> cases hasMN <;> cases np2 <;> simp [b2i]
+
+/-- what a list of steps builds (NumPy meaning of each step; anything else is not a gain table of the model) -/
+def runSteps (d : Dict) (i2v : Float) : List (String × List Int) → Except Err (List (STyp × Gains))
+  | [("sync_ones", [n]), ("np2", [a, b])] =>
+    if a = b then (match onesLen n with | .error e => .error e | .ok nsy => np2Gains a nsy i2v) else .error .model
+  | [("sync_ones", [n]), ("take", [k]), ("np1", [-1, -2])] =>
+    (match onesLen n with
+     | .error e => .error e
+     | .ok nsy =>
+       match d.get? kImro with
+       | some (.str tbl) => np1Gains tbl k nsy i2v
+       | _ => .error .type)
+  | [("nidq", [0, 1, 2, 3])] => nidqGains d i2v
+  | _ => .error .model
+
+/-- **The model's gain table is the interpretation of the SOURCE's steps.**  For every dictionary on which the scalar inputs are
+defined (`int2volt`, `snsApLfSy[-1]`, `nSavedChans`, the sync range, a recognised probe version when an IMRO table is present),
+`Meta.conversion d` = `runSteps` of the event list generated from the current text of `_conversion_sample2v_from_meta`.  Hence the
+assembly theorems of `Properties/C09` (`gain_vector_*`, `gain_assembly*`) are about what the source builds: a swapped IMRO field,
+a different cut, a different sync length, a reordered nidq block or an extra slice assignment breaks this obligation. -/
+theorem conversion_runs_source_steps (d : Dict) (i2v : Float) (nsyI nc : Int) (sr : Int × Int) (v : Version)
+    (hi : int2volt d = .ok i2v)
+    (hsy : d.has kImro = true → intItemKey d kApLfSy (-1) = .ok nsyI)
+    (hnc : d.has kImro = true → nChannels d = .ok nc)
+    (hsr : d.has kImro = true → syncRange d = .ok sr)
+    (hv : d.has kImro = true → version d = some v)
+    (hnone : d.has kImro = false → d.has kMNGain = true) :
+    conversion d = runSteps d i2v
+      (Src.C09.conv_steps (meta_data_has_imroTbl := b2i (d.has kImro)) (meta_data_has_niMNGain := b2i (d.has kMNGain))
+        (version_has_NP2 := np2Flag v) (snsApLfSy_m1 := nsyI) (nchannels := nc) (len_sync_indices := rangeLen sr)) := by
+  unfold np2Flag
+  rw [← np2_flag_eq, conv_steps_eq]
+  unfold conversion convSteps
+  simp only [hi]
+  cases h : d.has kImro
+  · simp [hnone h, runSteps]
+  · simp only [hsy h, hnc h, hsr h, hv h, if_true]
+    cases h2 : v.isNP2
+    · simp only [runSteps, Bool.false_eq_true, if_false]
+      cases onesLen nsyI <;> rfl
+    · simp only [runSteps, if_true]
+      cases onesLen nsyI <;> rfl
+
+/-- non-vacuity: an NP1 header without sync word (`snsApLfSy=2,0,0`) satisfies the hypotheses -/
+example : ∃ d : Dict, d.has kImro = true ∧ (intItemKey d kApLfSy (-1)).toOption = some 0 ∧ (nChannels d).toOption = some 2 ∧
+    (syncRange d).toOption = some (2, 2) ∧ version d = some .v3B1 :=
+  ⟨[(kImro, .str "(0,2)(0 0 0 500 250 1)(1 0 0 250 125 1)".toList), (kApLfSy, .list [.fin (2 * U), .fin 0, .fin 0]),
+    (kNSaved, .num (.fin (2 * U))), (kPrbType, .num (.fin 0))], by decide +kernel⟩
 
 end IblVerif.Tie.C09
